@@ -1,2 +1,105 @@
-(* placeholder while the pipeline is brought up *)
-From MV Require Import C07.Model.
+(* C07 — property theorems only.  Each is closed by [exact] of a lemma proved in
+   C07/Proofs*.v and followed by Print Assumptions.  The model is that of
+   bytes_buffer.c with fixes/C07-*.patch applied. *)
+From MV Require Import C07.Model C07.ProofsList C07.Proofs C07.ProofsOps gen.Params_C07 C07.ProofsGen.
+Local Open Scope Z_scope.
+
+(* Every state reachable from init by any history of the nine script operations
+   (all thirteen public functions) with non-negative sizes satisfies invariant
+   A.4, keeps its capacity, and reports readable() = number of unread bytes. *)
+Theorem bb_inv_reachable : forall c fill ops, 1 <= c -> Forall wf_op ops ->
+  let s := st (fst (run (start c fill) ops)) in
+  inv s /\ cap s = c /\ readable s = len (abs s).
+Proof. exact reachable_inv. Qed.
+Print Assumptions bb_inv_reachable.
+
+(* Lossless FIFO: along every history the observed results are exactly those of
+   a byte FIFO that knows nothing about cursors — accepted bytes are appended,
+   read / fetch / reader_fc deliver the front bytes, read / reader_move remove
+   exactly what they delivered (partial advances included), nothing else changes
+   the contents — and readable() printed after each operation equals accepted
+   minus consumed. *)
+Theorem bb_refines_fifo : forall c fill ops, 1 <= c -> Forall wf_op ops ->
+  fifo_trace [] (combine ops (snd (run (start c fill) ops))).
+Proof. exact refines_fifo. Qed.
+Print Assumptions bb_refines_fifo.
+
+(* One operation from ANY state satisfying the invariant (not only reachable
+   ones): invariant kept, FIFO step, touched ranges inside the array, refusal
+   leaves the buffer unchanged. *)
+Theorem bb_step_refines : forall x o x' r a, sinv x -> wf_op o -> step x o = (x', r, a) ->
+  sinv x' /\ cap (st x') = cap (st x) /\
+  fifo_step (abs (st x)) o r (abs (st x')) /\
+  acc_in_range (cap (st x)) a = true /\
+  (refused r = true -> st x' = st x).
+Proof. exact step_spec. Qed.
+Print Assumptions bb_step_refines.
+
+Theorem bb_readable_exact : forall s, inv s -> readable s = len (abs s).
+Proof. exact readable_abs. Qed.
+Print Assumptions bb_readable_exact.
+
+(* An operation fails iff the kind of space / data it needs is lacking (total
+   writable for write, total readable for read and fetch, one of the two
+   contiguous free stretches for writer_fc / writer_move, the contiguous unread
+   stretch for reader_fc / reader_move; writer_move_n inside the region it was
+   given never fails), and a failed operation returns the state unchanged. *)
+Theorem bb_fail_iff_lack : forall s, inv s ->
+  (forall src, snd (fst (write s src)) = false <-> writable s < len src) /\
+  (forall src, snd (fst (write s src)) = false -> fst (fst (write s src)) = s) /\
+  (forall n, 0 <= n -> (snd (fst (read s n)) = None <-> readable s < n)) /\
+  (forall n, 0 <= n -> snd (fst (read s n)) = None -> fst (fst (read s n)) = s) /\
+  (forall n, 0 <= n -> (fst (fetch s n) = None <-> readable s < n)) /\
+  (forall n, 0 <= n -> (writer_fc s n = None <-> contiguous_writable s < n /\ jump_writable s < n)) /\
+  (forall n off data, writer_fc s n = Some off -> len data <= n ->
+                      snd (writer_move_n (poke s off data) off (len data)) = true) /\
+  (forall n, 0 <= n -> (snd (writer_move s n) = false <-> contiguous_writable s < n /\ jump_writable s < n)) /\
+  (forall n, 0 <= n -> snd (writer_move s n) = false -> fst (writer_move s n) = s) /\
+  (forall n, 0 <= n -> (reader_fc s n = None <-> contiguous_readable s < n)) /\
+  (forall k, 0 <= k -> (snd (reader_move s k) = false <-> contiguous_readable s < k)) /\
+  (forall k, 0 <= k -> snd (reader_move s k) = false -> fst (reader_move s k) = s).
+Proof. exact fail_iff_lack. Qed.
+Print Assumptions bb_fail_iff_lack.
+
+(* At every point of every history, an operation that is refused (false / NULL /
+   not performed) leaves all four cursors and the array as they were. *)
+Theorem bb_refused_changes_nothing : forall c fill ops o, 1 <= c -> Forall wf_op ops -> wf_op o ->
+  let x := fst (run (start c fill) ops) in
+  refused (snd (fst (step x o))) = true -> st (fst (fst (step x o))) = st x.
+Proof. exact refused_unchanged. Qed.
+Print Assumptions bb_refused_changes_nothing.
+
+(* The "kinds" are not vacuous: whenever a byte is unread at least one is
+   contiguous (reader_fc 1 / reader_move 1 succeed: the reader is never stuck),
+   the three-case accounting loses nothing but the truncated tail and the
+   one-byte gap, and an empty buffer offers its whole capacity minus one. *)
+Theorem bb_reader_never_stuck : forall s, inv s -> 0 < readable s -> 0 < contiguous_readable s.
+Proof. exact contiguous_positive. Qed.
+Print Assumptions bb_reader_never_stuck.
+
+Theorem bb_space_accounting : forall s, inv s ->
+  writable s + readable s = (if rp s <=? wp s then cap s else tp s) - 1.
+Proof. exact space_accounting. Qed.
+Print Assumptions bb_space_accounting.
+
+Theorem bb_empty_all_writable : forall s, inv s -> abs s = [] -> writable s = cap s - 1.
+Proof. exact empty_writable. Qed.
+Print Assumptions bb_empty_all_writable.
+
+(* No operation of any history touches an index outside [0, c): every memcpy
+   range and every region handed out by writer_fc / reader_fc lies inside. *)
+Theorem bb_indices_in_range : forall c fill ops, 1 <= c -> Forall wf_op ops ->
+  Forall (fun ob => acc_in_range c (o_acc ob) = true) (snd (run (start c fill) ops)).
+Proof. exact indices_in_range. Qed.
+Print Assumptions bb_indices_in_range.
+
+(* Second tie to the source: the three static space helpers and
+   contiguous_readable, translated from the C text of bytes_buffer.c on every
+   run into gen/Params_C07.v, compute exactly what the model's helpers compute. *)
+Theorem bb_helpers_match_source : forall s,
+  gen_contiguous_writable (cap s) (wp s) (rp s) (tp s) = contiguous_writable s /\
+  gen_jump_writable (cap s) (wp s) (rp s) (tp s) = jump_writable s /\
+  gen_jump_readable (cap s) (wp s) (rp s) (tp s) = jump_readable s /\
+  gen_contiguous_readable (cap s) (wp s) (rp s) (tp s) = contiguous_readable s.
+Proof. exact gen_helpers_eq. Qed.
+Print Assumptions bb_helpers_match_source.
